@@ -418,7 +418,7 @@ pub struct TypeSpec {
     pub disc_shift: bool,
     /// the definition is produced by a `macro_rules!` invocation: bit 0 = field types arrive as `$t:ty` fragments,
     /// bit 1 = explicit discriminants as `$d:expr` fragments, bit 2 = values of field-level parameters (method paths,
-    /// ranks, Default expressions) as `$v:path` / `$v:expr` fragments (only with the real compiler; the in-process
+    /// ranks, Default expressions) as `$v:path` / `$v:expr` fragments, bit 3 = Into targets as `$g:ty` (only with the real compiler; the in-process
     /// engine always sees the plain definition)
     pub via_macro: u8,
 }
@@ -787,6 +787,37 @@ impl TypeSpec {
                             args.push(val);
                             k += 1;
                         }
+                    }
+                }
+            }
+            if self.via_macro & 8 != 0 {
+                // Into targets as `$g:ty` fragments: every other occurrence, so that a written target meets a fragment
+                for (gi, a) in self.into_targets().iter().enumerate() {
+                    let Some(t) = a.into_ty.as_deref() else { continue };
+                    let frag = format!("$g{gi}");
+                    let mut out = String::new();
+                    let mut rest = body.as_str();
+                    let mut occ = 0;
+                    let mut used = false;
+                    let needle = format!("Into({t}");
+                    while let Some(i) = rest.find(&needle) {
+                        let end = i + needle.len();
+                        let next = rest[end..].chars().next().unwrap_or(' ');
+                        out.push_str(&rest[..i]);
+                        if (next == ')' || next == ',') && occ % 2 == 0 {
+                            out.push_str(&format!("Into({frag}"));
+                            used = true;
+                        } else {
+                            out.push_str(&needle);
+                        }
+                        occ += 1;
+                        rest = &rest[end..];
+                    }
+                    out.push_str(rest);
+                    body = out;
+                    if used {
+                        params.push(format!("{frag}:ty"));
+                        args.push(t.to_string());
                     }
                 }
             }
